@@ -2,9 +2,10 @@ from vlib.pipeline import Unit, Ob
 from props.common import TRUSTED_BASE
 
 LEVEL_TEXT = ('Bounded symbolic model checking (CBMC) of the real reverse move generator on symbolic K-man positions: for every accepted position P and every legal move m (independent list-of-men '
-              'oracle), with Q the position after m: the raw un-move list of Q contains m exactly once, the static rejection test knownInvalid never rejects the true predecessor, and unMakeMove with the '
-              'true undo information rebuilds P exactly. The enumeration of (captured piece, castling rights, en-passant file) alternatives in genMoves and the converse direction (every listed un-move is valid) '
-              'are outside the claim (std::vector machinery and 7 x 16 x 9 nested Position copies).')
+              'oracle), with Q the position after m: the raw un-move list of Q contains m exactly once, the static rejection test knownInvalid never rejects the true predecessor, unMakeMove with the '
+              'true undo information rebuilds P exactly, every raw un-move is the reverse of some move, and the undo-information choices genMoves tries for m (captured piece, castling rights, en-passant '
+              'file: its five lambdas, called directly) include those of P and offer nothing that does not fit P; the real en-passant fix-up is checked against the specification the other obligations use. '
+              'The loop nest of genMoves that combines these choices and the full converse direction (every listed un-move restores a position in which the move is legal) are outside the claim.')
 ASSUMPTIONS = ['positions with two kings + up to NMEN-2 further men (quick: 3 men, thorough: 4 men), accepted by the FEN reader, en-passant square already fixed up (as the tool keeps it)',
                'in O1 TextIO::fixupEPSquare is replaced by its specification (ep square kept iff a legal en-passant capture exists, decided by the oracle); O5 checks the real function against that specification on the contract of the legal move list (C01 O2/O3)',
                'RevMoveGen::addMovesByMask replaced by a recording model (the real helper is a loop of MoveList::addMove over the mask bits, same shape as C01 O2-expand)',
@@ -76,7 +77,8 @@ def build(tier):
                           unwind_fn={r'.*genMoves.*ENK3__\d+clES2_RK4Moveiib\.0': 65, r'.*genMoves.*ENK3__\d+clES2_RK4Moveiib': 9, r'.*genMoves.*ENK3__\d+clES2_RK4Moveii': 7},   # board copy 64; <= 8 files; 6 home squares
                           functions=['RevMoveGen::genMoves lambdas (revmovegen.cpp:40-168): validCapturePiece, getBaseCastleMask, getCastleAddMask, mustBeEpCapture, getEpMask'],
                           stubs=['kernel models (lemmas L-*)', 'the 7 x 2^k x 9 loop nest of genMoves that combines the choices and filters them through knownInvalid (O1) is not executed'],
-                          bounds='two kings + %d further men; every legal move of the chosen mover incl. castling, en passant, promotions, captures; includeAllEpSquares both values' % (K - 2)))
+                          bounds='two kings + %d further men; every legal move of the chosen mover incl. castling, en passant, promotions, captures; includeAllEpSquares both values' % (K - 2),
+                          assumptions=['the predecessor is reachable by play in one respect beyond FEN acceptance: the origin square of the double push behind its en-passant square is empty']))
     # ---- O5: the real TextIO::fixupEPSquare scan that O1 replaces by its specification (same harness and obligations as C01-O4a)
     import copy
     from props import C01
